@@ -330,11 +330,15 @@ def conv_chunk(pid, cfg, m, failure):
     the cell centre with normal z in plotfile format; concrete payload (the slice may exceed 1 MB)."""
     from harness import c16
     nbox, nfid, syv = cfg['nbox'], cfg['nfid'], cfg['syv']
-    if cfg['factor'] != 1:
+    if cfg['factor'] not in (1, 2):
         return None
     ext = [(m['sx%d' % b], syv, 1) for b in range(nbox)]
     boxes, dom = boxes_along_x(ext)
-    ref = Ref('k', 3, ['a', 'b'][:max(nfid, 1)] + (['c'] if nfid < 2 else []), dom, [boxes], payload='concrete', lo=[0.0, 0.0, 0.0], dx0=[0.25, 0.25, 0.5])
+    levels = [boxes]
+    if cfg['factor'] == 2:
+        # the chunked level is the coarse one of a two-level plotfile: one fine box over the first coarse cell
+        levels.append([((0, 0, 0), (1, 1, 1))])
+    ref = Ref('k', 3, ['a', 'b'][:max(nfid, 1)] + (['c'] if nfid < 2 else []), dom, levels, payload='concrete', lo=[0.0, 0.0, 0.0], dx0=[0.25, 0.25, 0.5])
     fields = ref.fields[:nfid]
     v = {'signature': '%s/K-chunk' % pid, 'what': failure['what'], 'args': [fields, None, True, 2], 'pos': 0.25, 'model': None}
     return c16.make_replay(ref, v)
